@@ -79,7 +79,7 @@ def handlePacks (c : Case) : Verdict :=
     .specfalse sig s!"dmg={dmg}"
   else if (c.find "allnamed").map (·.getD 1 "") == some "1" && !(postIdxPacks.all postPacks.contains) then .specfalse "C34:packs:index-lists-missing-pack" s!"dmg={dmg}"
   else if !Restic.Model.RepairPacks.acceptTrace namedIds trace then
-    .specfalse "C34:packs:trace-order" s!"dmg={dmg} trace={repr trace}"
+    .specfalse "C34:packs:trace-order" s!"dmg={dmg} trace={trace.map fun e => match e with | .saveData i => "SD:" ++ i | .saveIndex i => "SI:" ++ i | .removeIndex i => "RI:" ++ i | .removeData i => "RD:" ++ i | .other w => "X:" ++ w}"
   else
   -- (a) the model
   let m := repairPacks loadable named []
